@@ -166,6 +166,11 @@ func (p Proxy) ServeHTTP(w http.ResponseWriter, r *http.Request) (int, error) {
 	if requiresBuffering {
 		body, err := newBufferedBody(outreq.Body)
 		if err != nil {
+			// the limits middleware cut the body off: same answer as on
+			// the unbuffered path below
+			if errors.Is(err, httpserver.ErrMaxBytesExceeded) {
+				return http.StatusRequestEntityTooLarge, err
+			}
 			return http.StatusBadRequest, errors.New("failed to read downstream request body")
 		}
 		if body != nil {
@@ -308,8 +313,10 @@ func (p Proxy) ServeHTTP(w http.ResponseWriter, r *http.Request) (int, error) {
 			return 0, nil
 		}
 
-		if backendErr == httpserver.ErrMaxBytesExceeded {
-			return http.StatusRequestEntityTooLarge, backendErr
+		// the transport may hand the body reader's error back wrapped
+		// (it does for bodies sent with a Content-Length)
+		if errors.Is(backendErr, httpserver.ErrMaxBytesExceeded) {
+			return http.StatusRequestEntityTooLarge, httpserver.ErrMaxBytesExceeded
 		}
 
 		if backendErr == context.Canceled {
